@@ -150,7 +150,12 @@ def jobs_for(prop, tier):
                     c1["max_states"] = 12000
             jobs.append({"engine": "S", "prop": prop, "label": sp.label() + "#" + _h(sp), "spec": sp.to_json(), "caps": c1})
         ccaps = {"max_states": 9000 if q else 150000, "max_seconds": 900 if q else 1200}
-        for sp in conveyor_store_subjects(tier, eager=(prop == "C04")):
+        csubs = conveyor_store_subjects(tier, eager=(prop == "C04"))
+        if prop == "C01":
+            # belt whose length is not a multiple of the item length: the public capacity is what must bound items + reservations
+            csubs.append(S("cconv", 2, live=2, drain=1, age_cap=5, grid=1, acc=1, clen=5, ilen=2))
+            csubs.append(S("cconv", 3, live=2, drain=1, age_cap=5, grid=1, acc=0, clen=10, ilen=3))
+        for sp in csubs:
             jobs.append({"engine": "S", "prop": prop, "label": sp.label() + "#" + _h(sp), "spec": sp.to_json(), "caps": ccaps})
         if prop in ("C01", "C06"):
             jobs += f_jobs(prop, tier)   # "in whole factories" clause
@@ -217,6 +222,7 @@ def jobs_for(prop, tier):
                 cc["max_states"] = sp.get("cap_states")
             jobs.append({"engine": "S", "prop": prop, "label": sp.label() + "#" + _h(sp), "spec": sp.to_json(), "caps": cc})
         if prop == "C12":
+            jobs += [j for j in f_jobs(prop, tier) if any(e["t"] in ("cconv", "sconv") for e in j["config"]["edges"])]   # whole factories
             for sp in conveyor_store_subjects(tier):
                 sp.kw["order_only"] = 1
                 jobs.append({"engine": "S", "prop": prop, "label": sp.label() + "#" + _h(sp), "spec": sp.to_json(),
@@ -235,6 +241,7 @@ F_FAMILIES = {
     "C08": ["lines", "congestion", "diamonds", "combiners", "splitters", "conveyors", "long_runs"],
     "C09": ["lines", "congestion", "fans", "combiners", "splitters", "nonblocking_fleet", "discards", "long_runs"],
     "C10": ["lines", "congestion", "diamonds", "fans", "combiners", "splitters", "conveyors", "draining", "nonblocking_fleet", "fleet_dense", "discards", "long_runs"],
+    "C12": ["conveyors", "diamonds", "draining", "long_runs", "splitters"],
     "C14": ["lines", "fleet_dense", "nonblocking_fleet", "long_runs", "diamonds"],
     "C15": ["diamonds", "fans", "combiners", "splitters", "invalid_indices", "discards", "long_runs"],
     "C16": ["combiners", "splitters", "long_runs"],
